@@ -55,19 +55,36 @@ def energy_spectra(
         return np.full(shape=(N), fill_value=spectra.log_nu_energy)
 
     if isinstance(spectra, Simulation.PowerSpectrum):
-        p = spectra.index
-        a = 10**spectra.lower_bound
-        b = 10**spectra.upper_bound
-        mp = 1 - p
+        lo = spectra.lower_bound
+        hi = spectra.upper_bound
         u = np.random.uniform(0.0, 1.0 + np.finfo(np.float64).eps, size=N)
-        log_e_nu = np.reciprocal(mp) * np.log10(u * (b**mp - a**mp) + a**mp)
-        return log_e_nu
+        # Inverse CDF of dN/dE ~ E^-index in x = log10(E): with k = (1 - index) ln(10),
+        # F(x) = expm1(k (x - lo)) / expm1(k (hi - lo)), uniform in x for index = 1.
+        # The expm1/log1p form is free of cancellation for every index.
+        k = (1.0 - spectra.index) * np.log(10.0)
+        if k == 0.0:
+            log_e_nu = lo + u * (hi - lo)
+        else:
+            log_e_nu = lo + np.log1p(u * np.expm1(k * (hi - lo))) / k
+        return np.clip(log_e_nu, lo, hi)
 
     if isinstance(spectra, Callable):
         return spectra(*args, size=N, **kwargs)
 
     else:
         raise RuntimeError(f"Spectra type not recognized {type(Spectra)}")
+
+
+def power_law_integral(spectra: Simulation.PowerSpectrum) -> float:
+    """Integral of E^-index dE over the spectrum bounds: (b^mp - a^mp) / mp, mp = 1 - index.
+
+    Evaluated as a^mp expm1(mp ln(b/a)) / mp, which has the limit ln(b/a) at index 1.
+    """
+    mp = 1 - spectra.index
+    log_ratio = (spectra.upper_bound - spectra.lower_bound) * np.log(10.0)
+    if mp == 0:
+        return log_ratio
+    return (10**spectra.lower_bound) ** mp * np.expm1(mp * log_ratio) / mp
 
 
 def spec_norm(
@@ -79,11 +96,7 @@ def spec_norm(
         return 1.0
 
     if isinstance(spectra, Simulation.PowerSpectrum):
-        p = spectra.index
-        a = 10**spectra.lower_bound
-        b = 10**spectra.upper_bound
-        mp = 1 - p
-        return mp / (b**mp - a**mp)
+        return 1.0 / power_law_integral(spectra)
 
     return 1.0
 
@@ -97,11 +110,7 @@ def sum_spec_weights(
         return 1.0
 
     if isinstance(spectra, Simulation.PowerSpectrum):
-        p = spectra.index
-        a = 10**spectra.lower_bound
-        b = 10**spectra.upper_bound
-        mp = 1 - p
-        return (b**mp - a**mp) / mp
+        return power_law_integral(spectra)
 
     return 1.0
 
